@@ -94,6 +94,9 @@ def _b64(tag, n=72):
 
 
 B64A, B64B, B64C = _b64("A"), _b64("B"), _b64("C", 51)
+TINY_A = _b64("tiny", 30)                      # < 64 chars: below the differ's base64 detection threshold
+TINY_B = TINY_A[:17] + ("A" if TINY_A[17] != "A" else "B") + TINY_A[18:]
+XML_A = "<?xml version='1.0'?><chart kind='bar'><series name='s1'>1,2,3,4,5,6,7,8,9</series><series name='s2'>9,8,7</series></chart>"
 B64_MULTILINE = B64A[:40] + "\n" + B64A[40:] + "\n"
 LONG_STREAM = "".join("row %04d: %s\n" % (i, "x" * (i % 17)) for i in range(90))   # > 1000 chars
 EC = {0: None, 1: 1, 2: 7}
@@ -107,7 +110,8 @@ def outputs_variant(v, ec, fam):
         return [{"output_type": "stream", "name": "stdout", "text": "result: %d\nline 2 of output\n" % (40 + fam)}]
     if v == 2:
         return [{"output_type": "execute_result", "execution_count": ecv, "metadata": {},
-                 "data": {"text/plain": "<module.Foo at 0x7f3a2b1c9d8e>", "image/png": B64A}}]
+                 "data": {"text/plain": "<module.Foo at 0x7f3a2b1c9d8e>", "image/png": B64A, "image/gif": TINY_A,
+                          "application/vnd.Acme.Chart+xml": XML_A}}]
     if v == 3:
         return [{"output_type": "stream", "name": "stdout", "text": "partial output\n"},
                 {"output_type": "error", "ename": "ValueError", "evalue": "bad value %d" % fam,
@@ -121,7 +125,8 @@ def outputs_variant(v, ec, fam):
                 {"output_type": "stream", "name": "stderr", "text": "warning: something happened\n"}]
     if v == 5:      # "re-run" of variant 2: pointer and image differ
         return [{"output_type": "execute_result", "execution_count": ecv, "metadata": {"collapsed": False},
-                 "data": {"text/plain": "<module.Foo at 0x7f3a2b1c0000>", "image/png": B64B}}]
+                 "data": {"text/plain": "<module.Foo at 0x7f3a2b1c0000>", "image/png": B64B, "image/gif": TINY_B,
+                          "application/vnd.Acme.Chart+xml": XML_A.replace("bar", "pie")}}]
     if v == 6:
         return [{"output_type": "stream", "name": "stdout", "text": LONG_STREAM},
                 {"output_type": "display_data", "metadata": {},
@@ -144,8 +149,8 @@ NB_MD = {0: {},
          2: {"kernelspec": {"display_name": "Python 3", "language": "python", "name": "python3"},
              "custom": {"list": [[1, 2], [3]], "flag": True, "objs": [{"a": 1}, {"a": 2}]}}}
 ATT = {0: None, 1: {"image.png": {"image/png": B64A}},
-       2: {"image.png": {"image/png": B64B}, "other.gif": {"image/gif": B64C}},
-       3: {"image.png": {"image/png": B64B}, "other.gif": {"image/gif": _b64("D", 51)},
+       2: {"image.png": {"image/png": B64B}, "other.gif": {"image/gif": B64C}, "tiny.gif": {"image/GIF": TINY_A}},
+       3: {"image.png": {"image/png": B64B}, "other.gif": {"image/gif": _b64("D", 51)}, "tiny.gif": {"image/GIF": TINY_B},
            "doc.txt": {"text/plain": "attached text\nsecond line"}}}
 
 
